@@ -10,7 +10,7 @@ def main():
         if sub not in p:
             continue
         prop = os.path.basename(p).split("-")[0]
-        if "--all-props" in sys.argv:
+        if "--all-props" in sys.argv or prop == "ALL":
             # the variant must be silent under EVERY property's check, not only the one it was written for
             sts = []
             for q in ["C%02d" % i for i in range(1, 21)]:
